@@ -32,6 +32,10 @@ PLANS = {
             "thorough": [("mixed", 4000, 80), ("st", 2000, 80)]},
     "C07": {"quick": [("st", 400, 60)],
             "thorough": [("st", 6000, 80)]},
+    "C08": {"quick": [("lt", 500, 70)],
+            "thorough": [("lt", 8000, 90)]},
+    "C13": {"quick": [("mixed", 250, 60), ("lt", 200, 60), ("st", 100, 60)],
+            "thorough": [("mixed", 4000, 80), ("lt", 3000, 80), ("st", 2000, 80)]},
     "C15": {"quick": [("rtt", 150, 120), ("nomech", 100, 60)],
             "thorough": [("rtt", 2500, 300), ("nomech", 1500, 80)]},
 }
@@ -114,14 +118,16 @@ def make_replay(prop, seed, recdir, tr, line_in_trace, obs, note=""):
     return path
 
 
-def match_known(prop, obs, lines_before):
-    """Known findings are identified by a specific history signature (see known_findings.json)."""
+def match_known(prop, obs, info):
+    """A rejection is a known finding only if the monitor named the deviation (reason string) and
+    that exact deviation, in that credential state, is listed in known_findings.json."""
+    if not info:
+        return None
     for k in load_known().get("findings", []):
         if k["property"] != prop:
             continue
         m = k.get("match", {})
-        if all(obs.get(a) == b for a, b in m.get("obs", {}).items()) and \
-           all(obs.get("snap", {}).get("cred", {}).get(a) == b for a, b in m.get("cred", {}).items()):
+        if m.get("reason") == info:
             return k
     return None
 
@@ -193,7 +199,7 @@ def run(prop, tier, seed, replay=None):
                       < t["first_line"] + len(t["lines"]))
             k = line - tr["first_line"]
             obs = tr["lines"][k]
-            kn = match_known(prop, obs, tr["lines"][:k])
+            kn = match_known(prop, obs, info)
             if kn:
                 known_hits.append(kn["key"])
                 continue
